@@ -188,3 +188,213 @@ def solve_refinement_loop(case):
     check("sat-returns-True", o.value is True)
     # the loop was left because the last refuting clause was unsatisfiable
     check("loop-left-only-after-an-unsatisfiable-refutation", G["log"][-1] == ("solve",) or any(e[0] == "write" for e in G["log"]))
+
+
+# ------------------------------------------------------------------------------------------------------------------
+# The model-theoretic half: from the loop contracts to the property, as ghost state over an uninterpreted sort of
+# models.  `holds(M)`: M satisfies the posted constraints and variable bounds; `val(M, i)`: the value of variable i.
+# M0 is an ARBITRARY model (a constant: every claim about it is a claim about all models); the back end's `unsat`
+# answers are used as ground instances at M0 only.
+@harness("C02", cases=[dict(first=f) for f in ("unsat", "sat")])
+def solve_reports_exactly_the_common_facts(case):
+    """solve() = True iff a model exists; afterwards, for every answer key k: sol[k] = v != None implies every model
+    gives k the value v; sol[k] = None implies two models that disagree on k exist.
+    Assumed back-end contract: solve() returns True together with the values of SOME model of the constraints added so
+    far (in every variable's sol), or False when there is none; add_constraint(OR of the literals) adds the
+    disjunction of the literal meanings (per-operator contracts of C01)."""
+    if CTX.mode != "sym":
+        return
+    I, B = _z3.IntSort(), _z3.BoolSort()
+    Model = _z3.DeclareSort("Model")
+    holds = _z3.Function("holds", Model, B)
+    val = _z3.Function("val", Model, I, I)
+    M0 = _z3.Const("M0_arbitrary", Model)
+    n = sint("n_var")
+    requires(n >= 0)
+    k_ = _z3.Int("k!bound")
+    variables = VList(None, n.t, _z3.Lambda([k_], k_), "ref")
+    key = slist("is_answer_key", "int", n)
+    G = {"sol": _z3.Array("sol_initial", I, I), "solves": 0, "P": _z3.BoolVal(True), "d": _z3.BoolVal(False),
+         "W": _z3.Array("W_initial", I, Model), "adds": 0}
+    sol_initial = G["sol"]
+    from pyvc.values import _elem_wrap, _elem_unwrap
+
+    def new_model(tag):
+        m = _z3.Const(CTX.fresh_name("M_" + tag), Model)
+        a = _z3.Array(CTX.fresh_name("sol_" + tag), I, I)
+        q = _z3.Int(CTX.fresh_name("q"))
+        CTX.assume(holds(m))
+        CTX.assume(_z3.ForAll([q], _z3.And(_z3.Select(a, q) == val(m, q), val(m, q) != NONE)))
+        return m, a
+
+    ghost("sref_getattr", lambda ref, name: _elem_wrap("optint", _z3.Select(G["sol"], ref.t)) if name == "sol" else (_ for _ in ()).throw(OutOfSubset("attribute " + name)))
+
+    def setattr_(ref, name, v):
+        if name != "sol":
+            raise OutOfSubset("attribute " + name)
+        G["sol"] = _z3.Store(G["sol"], ref.t, _elem_unwrap("optint", v))
+
+    ghost("sref_setattr", setattr_)
+    ghost("sref_compare", lambda op, a, b: GhostNe(a, b) if op == "NotEq" and isinstance(a, SRef) else NotImplemented)
+    ghost("sref_classes", set())
+
+    def be_add(it, args, kwargs):
+        G["adds"] += 1
+        c = args[1]
+        if G["adds"] == 1:
+            return None                         # the posted constraints: they are what `holds` means
+        # a refuting clause: must be the OR node over the list built by loop 2
+        from pyvc.values import VObj as _VO
+        ok = isinstance(c, _VO) and c.fields.get("op") is attr(CLS(EX, "Op"), "OR")
+        check("refuting-clause-is-a-disjunction", ok)
+        if not ok:
+            raise PathEnd("clause shape")
+        ops = c.fields.get("operands")
+        same_list = isinstance(ops, VList) and G.get("clause_len") is not None and ops.length.eq(G["clause_len"]) and ops.arr.eq(G["clause_arr"])
+        if not same_list:
+            raise OutOfSubset("the refuting clause is not built directly from the list of literals")
+        G["P"] = _z3.And(G["P"], G["d"])
+
+    def be_solve(it, args, kwargs):
+        G["solves"] += 1
+        if G["solves"] == 1:
+            if case.first == "unsat":
+                CTX.assume(_z3.Not(holds(M0)))
+                return False
+            G["M1"], G["sol"] = new_model("first")
+            G["sol_first"] = G["sol"]
+            return True
+        if sbool("resolve_sat_%d" % G["solves"]):
+            G["Mcur"], G["sol"] = new_model("next")
+            G["Mcur_iter"] = G.get("iter_token")
+            return True
+        CTX.assume(_z3.Not(_z3.And(holds(M0), G["P"])))
+        return False
+
+    use_contract(Z3B + "::Z3Backend.__init__", lambda it, a, k: None)
+    use_contract(Z3B + "::Z3Backend.add_constraint", be_add)
+    use_contract(Z3B + "::Z3Backend.solve", be_solve)
+    use_contract(SOL + "::_get_backend", lambda it, a, k: CLS(Z3B, "Z3Backend"))
+    solver = OBJ(SOL, "Solver", variables=variables, is_answer_key=key, constraints=mklist([]))
+    A = lambda ns: ns.answer.arr
+    K = lambda j: _z3.Select(key.arr, j) != 0
+
+    def qall(body):
+        return forall_range(n, lambda j: mk_bool(body(j.t)), hint="q")
+
+    def inv0(ns):
+        i = _zint(ns.i)
+        return [length(ns.answer) == n,
+                qall(lambda j: _z3.Select(A(ns), j) == _z3.If(_z3.And(j < i, K(j)), _z3.Select(G["sol_first"], j), NONE))]
+
+    loop_spec(SV, 0, inv=inv0, modifies=["answer"], types={"answer": "list:optint"})
+
+    def inv1(ns):
+        a = A(ns)
+        M1, W, P = G["M1"], G["W"], G["P"]
+        return [length(ns.answer) == n,
+                qall(lambda j: _z3.Implies(_z3.Not(K(j)), _z3.Select(a, j) == NONE)),
+                qall(lambda j: _z3.Implies(_z3.And(K(j), _z3.Select(a, j) != NONE), _z3.Select(a, j) == val(M1, j))),
+                qall(lambda j: _z3.Implies(_z3.And(K(j), _z3.Select(a, j) == NONE),
+                                           _z3.And(holds(_z3.Select(W, j)), val(_z3.Select(W, j), j) != val(M1, j)))),
+                qall(lambda j: _z3.Implies(_z3.And(K(j), _z3.Select(a, j) != NONE, val(M0, j) != _z3.Select(a, j)), P))]
+
+    def havoc1():
+        G["sol"] = _z3.Array(CTX.fresh_name("sol_loop_head"), I, I)
+        G["P"] = _z3.Bool(CTX.fresh_name("P_earlier_clauses_hold_at_M0"))
+        G["W"] = _z3.Array(CTX.fresh_name("W_witnesses"), I, Model)
+
+    def head1(ns):
+        G["d"] = _z3.BoolVal(False)
+        snap = ns.answer.snapshot()
+        G["iter_token"] = id(snap)
+        G["keep"] = snap
+        return snap
+
+    def end1(ns, before):
+        # ghost update after the demotion loop: a key demoted in this iteration gets the new model as witness
+        if "Mcur" not in G or G.get("Mcur_iter") != id(before):
+            # the iteration went on although the back end reported no further model
+            check("the-loop-continues-only-after-a-further-model-was-found", False)
+            raise PathEnd("no model in this iteration")
+        old, sol, W, Mcur = before.arr, G["sol"], G["W"], G["Mcur"]
+        j_ = _z3.Int(CTX.fresh_name("jw"))
+        demoted = _z3.And(K(j_), _z3.Select(old, j_) != NONE, _z3.Select(old, j_) != _z3.Select(sol, j_))
+        G["W"] = _z3.Lambda([j_], _z3.If(demoted, Mcur, _z3.Select(W, j_)))
+
+    loop_spec(SV, 1, inv=inv1, modifies=["answer", "difference_cond"], types={"answer": "list:optint", "difference_cond": "list:ref", "a": "opaque"},
+              ghost_havoc=havoc1, at_head=head1, at_end=end1)
+
+    def inv2(ns):
+        i = _zint(ns.i)
+        a = A(ns)
+        G["clause_len"], G["clause_arr"] = ns.difference_cond.length if ns.difference_cond.arr is not None else None, ns.difference_cond.arr
+        return [length(ns.answer) == n,
+                forall_range(ns.i, lambda j: mk_bool(_z3.Implies(_z3.And(K(j.t), _z3.Select(a, j.t) != NONE, val(M0, j.t) != _z3.Select(a, j.t)), G["d"])), hint="q")]
+
+    def havoc2():
+        G["d"] = _z3.Bool(CTX.fresh_name("d_clause_so_far_holds_at_M0"))
+
+    flag = {}
+
+    def head2(ns):
+        flag["appended"] = False
+        return None
+
+    def on_append(ns, value):
+        flag["appended"] = True
+        if not isinstance(value, GhostNe):
+            raise OutOfSubset("clause literal is not a disequality")
+        check("clause-literal-names-variable-i", value.index == SRef(_zint(ns.i)))
+        check("clause-literal-uses-the-current-answer", mk_bool(_zint(value.value) == _z3.Select(ns.answer.arr, _zint(ns.i))))
+        G["d"] = _z3.Or(G["d"], val(M0, value.index.t) != _zint(value.value))
+
+    def end2(ns, token):
+        i = _zint(ns.i)
+        a = _z3.Select(A(ns), i)
+        want = _z3.And(K(i), a != NONE)
+        check("every-key-with-an-answer-is-refuted", mk_bool(want) if flag["appended"] else mk_bool(_z3.Not(want)))
+
+    loop_spec(SV, 2, inv=inv2, modifies=["difference_cond"], types={"difference_cond": "list:ref", "a": "opaque"},
+              ghost_havoc=havoc2, at_head=head2, at_end=end2)
+    watch("append", SV, "difference_cond", on_append)
+
+    def inv3(ns):
+        i = _zint(ns.i)
+        old = ns.old.answer.arr
+        sol = G["sol"]
+        dem = lambda j: _z3.If(_z3.And(K(j), _z3.Select(old, j) != NONE, _z3.Select(old, j) != _z3.Select(sol, j)), NONE, _z3.Select(old, j))
+        return [length(ns.answer) == n,
+                qall(lambda j: _z3.Select(A(ns), j) == _z3.If(j < i, dem(j), _z3.Select(old, j)))]
+
+    loop_spec(SV, 3, inv=inv3, modifies=["answer"], types={"answer": "list:optint"})
+
+    def inv4(ns):
+        i = _zint(ns.i)
+        if "sol_before_writeback" not in G:
+            G["sol_before_writeback"] = G["sol"]
+        G["answer_final"] = A(ns)
+        prev = G["sol_before_writeback"]
+        return [length(ns.answer) == n,
+                qall(lambda j: _z3.Select(G["sol"], j) == _z3.If(_z3.And(j < i, K(j)), _z3.Select(A(ns), j), _z3.Select(prev, j)))]
+
+    def havoc4():
+        G["sol"] = _z3.Array(CTX.fresh_name("sol_wb"), I, I)
+
+    loop_spec(SV, 4, inv=inv4, modifies=[], ghost_havoc=havoc4)
+    o = call(REAL(SOL, "Solver.solve"), solver, None)
+    check("no-exception", not o.raised)
+    if o.raised:
+        return
+    if case.first == "unsat":
+        check("returns-False-only-when-no-model-exists", And(o.value is False, mk_bool(_z3.Not(holds(M0)))))
+        return
+    check("returns-True-and-a-model-exists", And(o.value is True, mk_bool(holds(G["M1"]))))
+    k = fresh_int("key")
+    requires(And(k >= 0, k < n))
+    requires(mk_bool(K(k.t)))
+    s_k = _z3.Select(G["sol"], k.t)
+    check("a-reported-value-is-the-value-in-EVERY-model", implies(mk_bool(_z3.And(s_k != NONE, holds(M0))), mk_bool(val(M0, k.t) == s_k)))
+    Wk = _z3.Select(G["W"], k.t)
+    check("None-is-reported-only-when-two-models-disagree",
+          implies(mk_bool(s_k == NONE), mk_bool(_z3.And(holds(G["M1"]), holds(Wk), val(G["M1"], k.t) != val(Wk, k.t)))))
